@@ -276,6 +276,10 @@ func (dec *Decoder) decodeMB(tokenBR *bitio.BoolReader) error {
 
 	if !skip {
 		dec.parseResiduals(mb, left, block, tokenBR)
+		// A macroblock without any non-zero coefficient counts as skipped
+		// for the loop filter (RFC 6386 section 15.1; libwebp's
+		// ParseResiduals returns !(non_zero_y | non_zero_uv)).
+		skip = (block.NonZeroY | block.NonZeroUV) == 0
 	} else {
 		left.Nz = 0
 		mb.Nz = 0
